@@ -815,3 +815,28 @@ Proof.
   - simpl. rewrite scatter_map, map_map. reflexivity.
   - rewrite scatter_length, map_length, ravel_length, Hs. reflexivity.
 Qed.
+
+(** * Several publications through one adapter: no publication leaves a trace *)
+
+Lemma nth_error_map_opt : forall X Y (f : X -> Y) l k,
+  nth_error (map f l) k = option_map f (nth_error l k).
+Proof. intros X Y f. induction l as [|x l IH]; intros [|k]; simpl; auto. Qed.
+
+Theorem publications_independent :
+  (forall (A : Type) nearest am down smask src_ma spts (pubs pubs' : list (list A)) tpts d k svals,
+     nth_error pubs k = Some svals -> nth_error pubs' k = Some svals ->
+     nth_error (regrid_nearest_seq nearest am down smask src_ma spts pubs tpts d) k
+       = Some (regrid_nearest nearest am down smask src_ma spts svals tpts d)
+     /\ nth_error (regrid_nearest_seq nearest am down smask src_ma spts pubs' tpts d) k
+       = nth_error (regrid_nearest_seq nearest am down smask src_ma spts pubs tpts d) k)
+  /\
+  (forall nearest lin fill am down smask src_ma spts (pubs pubs' : list (list Q)) tpts k svals,
+     nth_error pubs k = Some svals -> nth_error pubs' k = Some svals ->
+     nth_error (regrid_linear_seq nearest lin fill am down smask src_ma spts pubs tpts) k
+       = Some (regrid_linear nearest lin fill am down smask src_ma spts svals tpts)
+     /\ nth_error (regrid_linear_seq nearest lin fill am down smask src_ma spts pubs' tpts) k
+       = nth_error (regrid_linear_seq nearest lin fill am down smask src_ma spts pubs tpts) k).
+Proof.
+  split; intros; unfold regrid_nearest_seq, regrid_linear_seq; rewrite !nth_error_map_opt;
+    rewrite H, H0; simpl; split; reflexivity.
+Qed.
